@@ -41,7 +41,10 @@ COST_OPTS = [[], ["--cost-dup", "2", "--cost-sloss", "0"], ["--cost-hgt", "float
              ["--cost-dup", "1000000", "--cost-floss", "1/3", "--cost-sloss", "7"],
              # a zero unit cost for an event the solutions do use (kept inside spe + 2*sloss <= dup + 2*floss: outside it ANY
              # may return a non-optimal solution, the recorded finding F-COHERENCE)
-             ["--cost-dup", "0", "--cost-hgt", "2"]]
+             ["--cost-dup", "0", "--cost-hgt", "2"],
+             # LAST entry, plain algorithms only: a speciation dearer than a duplication plus two losses (what the tool
+             # prints and writes must still agree with each other; nothing is said here about optimality)
+             ["--cost-spe", "2", "--cost-floss", "0"]]
 
 
 def worker_init():
@@ -314,7 +317,7 @@ def check_missing_syntenies(O, S, leafmap, opat, spat, algo):
         status, out, err, _ = cli_driver.run_cli(["reconcile", algo], json.dumps(data))
     except Exception as exc:
         return ("exception", f"reconcile {algo} without syntenies raised {type(exc).__name__}: {exc}")
-    if status != 1 or out.strip():
+    if status != 1 or out != "":       # "writes nothing": not even a line break
         return ("missing_syntenies", f"reconcile {algo} on an input without leaf_syntenies: status {status}, stdout {out[:100]!r}")
     return None
 
@@ -377,7 +380,8 @@ def cases_for(O, S, leafmap, full):
                 else:
                     syns = usyn if full else usyn[k % 3::3][:4]
                 for leafsyn in syns:
-                    opts = range(len(COST_OPTS)) if full else [k % len(COST_OPTS)]
+                    nopt = len(COST_OPTS) if algo in ("lca", "thl", "exh") else len(COST_OPTS) - 1
+                    opts = range(nopt) if full else [k % nopt]
                     for ci in opts:
                         k += 1
                         yield oid, opat, sid, spat, algo, leafsyn, bool(k % 2), ci
@@ -397,7 +401,7 @@ def poly_cases(O, S, full, asg):
         for leafsyn in (syns if full else syns[asg % 2::2]):
             k += 1
             (oid, opat), (sid, spat) = pats[k % len(pats)]
-            yield leafmap, oid, opat, sid, spat, algo, leafsyn, k % len(COST_OPTS)
+            yield leafmap, oid, opat, sid, spat, algo, leafsyn, k % (len(COST_OPTS) - 1)
 
 
 def run_poly_shard(shard):
